@@ -4,9 +4,11 @@
      runtime/src/vm/globals/access.rs         (set_global_by_index: write + clear the snapshot cache)
      runtime/src/vm/globals/sync.rs           (sync_globals_to_hashmap, sync_current_function_globals)
      runtime/src/vm/globals/layout.rs         (prepare_globals_for_function: snapshot cache)
-     runtime/src/vm/dispatch/ops/call_global*.inc, calls.inc (call: sync caller, prepare callee;
-                                               Return: sync callee, pop, prepare caller -- only when
-                                               there is a caller frame with a non-zero mapping id)
+     runtime/src/vm/dispatch/ops/call_*.inc, calls.inc, run.rs (call: if the callee's id is not 0
+                                               and not the LOADED id: copy back what is loaded, load the
+                                               callee's layout; Return: the same towards the caller, and
+                                               copy back when leaving the run loop; id 0 = runs on
+                                               whatever is loaded)
      runtime/src/vm/call_api/{kinds,cached}.rs (host call: prepare callee, push a frame without
                                                clearing the frame stack)
      runtime/src/vm/dispatch/run.rs           (run_fast drops the frames of a failed run)
@@ -109,34 +111,37 @@ Definition prepare (st : gstate) (id : N) : gstate :=
       end
   end.
 
-Definition top_gmap (st : gstate) : N := match frames st with f :: _ => f_gmap f | [] => 0 end.
+(* sync_loaded_globals: copy back under the layout that is actually loaded *)
+Definition sync_loaded (st : gstate) : gstate := sync_names st (names_of st (cur st)).
 
-(* CallGlobal / CallGlobalMono / CallCached / ...: entering a bytecode function from bytecode *)
+(* Call / CallGlobal / CallGlobalMono / CallCached / CallUpval / TailCallUpval entering a bytecode
+   function from bytecode (c90f0cb).  A function whose layout id is 0 uses no globals: it runs on
+   whatever layout is loaded.  Otherwise the wanted id is compared with the id of the layout that
+   is LOADED (not with the id of the calling frame, which may be 0): what is loaded is copied back
+   to the by-name map, then the callee's layout is loaded. *)
 Definition call_enter (st : gstate) (L : layout) : gstate :=
   let st := register st L in
   let id := l_id L in
-  let g := top_gmap st in
-  let st1 := if negb (id =? 0) && negb (id =? g)
-             then prepare (if negb (g =? 0) then sync_current st else st) id
+  let st1 := if negb (id =? 0) && negb (id =? cur st)
+             then prepare (sync_loaded st) id
              else st in
   with_frames st1 (mkFrame id id false :: frames st1).
 
 (* Return / Return0.  Result: the state and whether the run loop is left (the frame stack is empty).
-   The globals are copied back to the by-name map towards a caller frame with a non-zero mapping id
-   and (a3cbd29) when the Return leaves the run loop. *)
+   The caller gets its layout back unless it has none (id 0) or its layout is the loaded one; the
+   loaded layout is copied back before the switch and (a3cbd29) when the Return leaves the run loop. *)
 Definition do_return (st : gstate) : gstate * bool :=
   match frames st with
   | [] => (st, true)
   | f :: rest =>
       let caller_gmap := match rest with c :: _ => f_gmap c | [] => 0 end in
-      let needs := negb (f_gmap f =? 0) && negb (f_gmap f =? caller_gmap) in
+      let needs := negb (caller_gmap =? 0) && negb (caller_gmap =? cur st) in
       let leaving := match rest with [] => true | _ => false end in
-      let st1 := if needs && (negb (caller_gmap =? 0) || (RETURN_SYNCS_WHEN_LEAVING && leaving))
-                 then sync_current st else st in
+      let st1 := if needs || (RETURN_SYNCS_WHEN_LEAVING && leaving) then sync_loaded st else st in
       let st2 := with_frames st1 rest in
       match rest with
       | [] => (st2, true)
-      | c :: _ => (if needs && negb (caller_gmap =? 0) then prepare st2 (f_fn c) else st2, false)
+      | c :: _ => (if needs then prepare st2 (f_fn c) else st2, false)
       end
   end.
 
